@@ -365,7 +365,8 @@ func runCheck(prog *Program, prop, tier, verif, only string, loadSecs float64, t
 		"integers are mathematical (no overflow) except in functions marked bv (64-bit vectors) or checked_arith",
 		"distinct slice and map values do not alias; element writes are value updates",
 		"nil dereference / out-of-range index ends the path (partial correctness) except in functions marked safety",
-		"goroutine bodies, logging, tracing and metrics calls are dropped; termination is not proved",
+		"goroutine bodies are not verified (of a go statement only the spawned calls are looked at: the caller's at_call clauses and the callees' call-history ghosts); logging, tracing and metrics calls are dropped; termination is not proved",
+		"an interior pointer (&p.f) is a copy kept in step with its location around every call; two such pointers to the same location are not known to alias",
 		"strings, CIDs, peer IDs, multiaddresses and errors are uninterpreted values with equality")
 	for _, c := range assumed {
 		var cl []string
